@@ -19,6 +19,18 @@ def rule_norm_path(ctx, r):
     idx = ctx.index
     np_ = idx.func(f"{CORE}:_norm_path")
     con = f"{np_.module.relpath}::{np_.qual}"
+    # normalisation is lexical: the key of a file is its spelling made absolute, never the place a symbolic link on the way points to (two spellings of one declared
+    # path - relative and absolute, with and without `..` - must give one key; resolving links gives one key per route through the file system)
+    import ast as _ast
+    for c_ in _ast.walk(np_.node):
+        if isinstance(c_, _ast.Call) and isinstance(c_.func, (_ast.Name, _ast.Attribute)):
+            cn_ = idx.canon(c_.func, np_.module) or ""
+            at_ = c_.func.attr if isinstance(c_.func, _ast.Attribute) else None
+            if cn_ in ("os.path.realpath", "os.readlink", "os.path.samefile") or (at_ in ("resolve", "readlink") and not cn_.startswith("gwf.")):
+                from ..index import loc as _loc
+                r.violation(con + "::follows-symlinks", f"_norm_path resolves symbolic links ({cn_ or '.' + at_}): a path that walks through a symlinked directory gets the key of the "
+                            "link's destination, so the relative and the absolute spelling of one file (or `data/../ref.txt` and `ref.txt`) no longer meet - producers and "
+                            "consumers lose their edge, `gwf clean` protects or deletes the wrong file", _loc(c_, np_.module))
 
     class _Plain(Semantics):
         def may_raise(self, node, state):
